@@ -55,6 +55,14 @@ class TailCallOptimization(FunctionPass):
     """
 
     def on_function(self, function):
+        # The recursive call gets a fresh stack frame, the jump re-uses the
+        # current one. This makes a difference when the callee can reach
+        # memory in the frame of the caller (a pointer to an alloc passed
+        # on or stored somewhere). Leave functions with stack memory alone.
+        # Note that mem2reg has removed the plain local variables already.
+        if any(isinstance(i, ir.Alloc) for block in function for i in block):
+            return
+
         # Check if there are any tail calls. If not, we are done.
         tail_calls = []
         for block in function:
